@@ -41,7 +41,7 @@ theorem mem_checks_mro {O w src} : mroCheck w src ∈ checks O w src := by
 theorem mem_checks_final {O w src} : finalCheck w src ∈ checks O w src := by
   simp [checks]
 
-theorem mem_checks_const {O w src} {p : String × Member} (hp : p ∈ allFieldsOf w src) :
+theorem mem_checks_const {O w src} {p : String × Member} (hp : p ∈ resolvedFields w src) :
     constCheck p ∈ checks O w src := by
   simp only [checks, List.mem_append, List.mem_map]
   exact Or.inl (Or.inl (Or.inl (Or.inr ⟨p, hp, rfl⟩)))
@@ -79,6 +79,15 @@ theorem mem_allFieldsOf_last (w : World) (src : ClassSrc) (n : String) (m : Memb
   simp only [allFieldsOf, addEntry, mergeAll_eq, ownMembers_append_obj, List.flatten_append,
     List.flatten_cons, List.flatten_nil, List.append_nil, lookup_updateAll]
   simp [← List.append_assoc, lookup]
+
+/-- the appended own entry is what `getattr` returns for its name -/
+theorem mem_resolvedFields_last (w : World) (src : ClassSrc) (n : String) (m : Member) :
+    (n, m) ∈ resolvedFields w (addEntry src n (.obj m)) := by
+  have h := mem_allFieldsOf_last w src n m
+  have hr : resolveAttr w (addEntry src n (.obj m)) n = some m := by
+    simp [resolveAttr, addEntry, ownMembers_append_obj, lookup]
+  simp only [resolvedFields, List.mem_map]
+  exact ⟨(n, m), h, by simp [hr]⟩
 
 theorem mem_entries_addEntry (src : ClassSrc) (n : String) (e : SrcEntry) :
     (n, e) ∈ (addEntry src n e).entries := by simp [addEntry]
@@ -176,7 +185,7 @@ theorem fault_rejected_core (O : Oracles) (w : World) (src : ClassSrc) (f : Faul
       | error e => exact defineClass_error_of_check (mem_checks_mro) hc
   | badConstant n v =>
     simp only [Fault.applies, Bool.not_eq_true'] at ha
-    exact defineClass_error_of_check (mem_checks_const (mem_allFieldsOf_last w src n (.const v)))
+    exact defineClass_error_of_check (mem_checks_const (mem_resolvedFields_last w src n (.const v)))
       (e := .typeErr) (by simp [constCheck, ha])
   | keysOfMissing n =>
     simp only [Fault.applies, Bool.not_eq_true'] at ha
